@@ -75,6 +75,8 @@ int vp_rec_vsnprintf(char *buf, size_t size, const char *fmt, va_list ap)
         tag_id = (long)va_arg(ap, unsigned int);
         tag_serial = (long)va_arg(ap, unsigned int);
         have_tag = 1;
+        /* leave a non-empty text behind, as the real formatter does: callers test routing[0] */
+        if (size > 1) { buf[0] = 't'; buf[1] = '\0'; }
         return 3;
     }
     if (fmt[0] == ' ' && fmt[1] == '%' && fmt[2] == 'd' && fmt[3] == ' ' && fmt[4] == '%' && fmt[5] == 's') {
